@@ -71,6 +71,17 @@ BatchClause(r) ==
   \* calls before it left there (C04 without an intermediate read)
   ELSE IF r.ops[Len(r.ops)].op = "foreign" /\ \E c \in Buckets \ {r.ops[Len(r.ops)].b} : f.s[c] # Obs(r)[c]
        THEN "batch-other-bucket-changed-by-out-of-contract-call"
+  \* a control execution of the same history without the run's last call is attached (frame probes): when the control
+  \* holds what the reference model holds but, with the last call issued, a bucket OTHER than the one it addressed does
+  \* not, that call changed another bucket (C04 without an intermediate read)
+  ELSE IF r.ctrl.has /\ Len(r.ops) >= 1 /\
+          LET c0 == [b \in Buckets |-> ObsB(r.ctrl.pre[b])]
+              c1 == [b \in Buckets |-> ObsB(r.ctrl.st[b])]
+              fc == FoldOps(c0, r.ctrl.ops, r.ctrl.st)
+              lastb == r.ops[Len(r.ops)].b
+          IN /\ fc.ok /\ \A c \in Buckets : fc.s[c] = c1[c]
+             /\ \E c \in Buckets \ {lastb} : f.s[c] # Obs(r)[c]
+       THEN "batch-other-bucket-changed-by-last-call"
   ELSE IF \E c \in Buckets : f.s[c] # Obs(r)[c] THEN "batch-final-state"
   ELSE "none"
 
